@@ -21,16 +21,21 @@ covering grid, every depth and node); none is `_partial`:
 
 * `kth_lipschitz`, `tent_lipschitz`, `snap_error` — the three analytic ingredients;
 * `ramps_are_snapped_tents` — what the two ramp loops + sort + padding compute;
-* `approx_shape`, `computeLandscape_half_step`, `computeLandscape_exact`, `approx_half_step`,
-  `approx_half_step_default`, `approx_ok_inv`, `approx_errors`, `half_step_attained` — the property
-  for `PersLandscapeApprox`, its glue (degree selection, `+∞` rows, default grid, error paths) and
-  the tightness of the constant `1/2`;
-* `transformer_is_approx`, `transformer_flat_entry`, `fit_transform_eq_transform`;
-* `vectorize_samples_evalPL` (given the `np.interp` contract);
+* `approx_shape`, `approx_rows`, `computeLandscape_half_step`, `computeLandscape_exact`,
+  `approx_half_step`, `approx_half_step_default`, `approx_ok_inv`, `approx_errors`,
+  `half_step_attained` — the property for `PersLandscapeApprox`, its glue (degree selection, `+∞`
+  rows, default grid, error paths, which rows are returned) and the tightness of the constant `1/2`;
+* `transformer_is_approx` (definitional restatement), `transformer_flat_entry`,
+  `fit_transform_eq_transform` (diagrams with infinite bars included), `old_fit_inf_counterexample`;
+* `vectorize_samples_evalPL` (given the `np.interp` contract) — about the landscape's OWN critical
+  pairs: "samples of the true landscape" follows only where C03 certifies those critical pairs;
 * `death_vector_sorted`, `death_vector_finite_sorted`, `death_vector_higher_degree`.
 
-The upstream code has no C08 defect (no `fix:` commit touches this property), so there is no
-`old_…_counterexample` here.
+Repaired upstream defects mirrored here: /repo 357d745 (a grid on which no bar is visible gives one
+zero row instead of the string placeholder `["empty"]` — `approx_rows` says which rows are returned)
+and /repo b209c93 (`PersistenceLandscaper.fit` ignores points with an infinite coordinate —
+`fit_transform_eq_transform` holds for such diagrams, `old_fit_inf_counterexample` shows the model
+of the earlier code failing on `[(0,3),(1,4),(0,∞)]`).
 -/
 namespace PersimVerif.C08
 open PersimVerif.PL PersimVerif.Approx PersimVerif.ApproxLemmas List
@@ -100,7 +105,7 @@ example : |(1 : ℚ) - 5 / 4| ≤ 1 / 2 ∧ |(4 : ℚ) - 7 / 2| ≤ 1 / 2 := by
 /-- **ramps_are_snapped_tents**: after the two ramp loops, `W[i]` is — in the order of the bars —
     the list of the *positive* values at node `i` of the tents of the snapped bars; and entry
     `(k, i)` of the values array (after the per-node descending sort and the zero padding to `K`
-    rows; `0` for rows that are not returned, and for the `"empty"` placeholder) is the `k`-th
+    rows; `0` for rows that are not returned; one zero row when no bar is visible) is the `k`-th
     largest of the tent values of the snapped bars at node `i`. -/
 theorem ramps_are_snapped_tents (bars : List (K × K)) (s e : K) (n : Nat) (hse : s ≤ e) (hn : 2 ≤ n)
     (i : Nat) (hi : i < n) :
@@ -139,6 +144,38 @@ theorem approx_shape (bars : List (K × K)) (s e : K) (n : Nat) :
   have := rows_valuesOfW_length (rampsW bars s e n) row hrow
   rwa [rampsW_length] at this
 
+/-- **approx_rows** (which rows are returned).  The values array always has at least one row
+    (`max_depth ≥ 1`); the number of rows is `max 1 K` with `K` the largest number of values any node
+    received; and if no snapped bar is visible at any node (`K = 0`: every snapped tent vanishes at
+    every node — e.g. every bar shorter than a step), the array is exactly ONE ZERO ROW
+    `np.zeros((1, num_steps))` — the zero function, as every other statement here reads it. -/
+theorem approx_rows (bars : List (K × K)) (s e : K) (n : Nat) :
+    (computeLandscape bars s e n).rows ≠ [] ∧
+    (computeLandscape bars s e n).rows.length = max 1 (((rampsW bars s e n).map List.length).foldl max 0) ∧
+    (s ≤ e → 2 ≤ n →
+      (∀ i, i < n → ∀ p ∈ bars, tent (snapNode s e n p.1) (snapNode s e n p.2) (node s e n i) = 0) →
+      (computeLandscape bars s e n).rows = [List.replicate n 0]) := by
+  refine ⟨rows_valuesOfW_ne_nil _, valuesOfW_rows_length _, fun hse hn h => ?_⟩
+  unfold computeLandscape
+  have hall : ∀ w ∈ rampsW bars s e n, w = [] := by
+    intro w hw
+    obtain ⟨i, hi, rfl⟩ := List.getElem_of_mem hw
+    have hi' : i < n := by rwa [rampsW_length] at hi
+    have h1 := (ramps_are_snapped_tents bars s e n hse hn i hi').1
+    rw [List.getElem?_eq_getElem hi] at h1
+    rw [Option.some.inj h1, List.filter_eq_nil_iff]
+    intro x hx
+    obtain ⟨p, hp, rfl⟩ := List.mem_map.mp hx
+    rw [h i hi' p hp]
+    simp
+  rw [valuesOfW_all_nil _ hall, rampsW_length]
+
+/-- non-vacuity of the zero-row clause: the bar `(1, 3/2)` is shorter than the step of the grid
+    `0, 2, 4`; both ends snap to node 1 — and the model returns one zero row -/
+example : (0 : ℚ) ≤ 4 ∧ (2 : ℕ) ≤ 3 ∧
+    (computeLandscape [((1 : ℚ), (3 / 2 : ℚ))] 0 4 3).rows = [[0, 0, 0]] := by
+  refine ⟨by norm_num, by norm_num, by decide +kernel⟩
+
 /-! ### the half-step bound -/
 
 /-- the bound for `compute_landscape` on an explicit grid -/
@@ -171,20 +208,21 @@ theorem computeLandscape_exact (bars : List (K × K)) (s e : K) (n : Nat) (hn : 
     Let `d = dgms[hom_deg]`, `bars` its rows without `+∞`, and `[s, e]` the grid the constructor
     uses (`start`/`stop` as given, else minimum birth / maximum death).  If `num_steps ≥ 2`,
     `s ≤ e` and the grid covers every birth and death, then the constructor succeeds, every returned
-    row has `num_steps` entries, and every entry `(k, i)` — rows beyond those returned (and the
-    `"empty"` placeholder) counting as zero — is within `step/2` of the true landscape
-    `λ_k(g_i)`; if moreover every endpoint is a node, it is equal to it. -/
+    row has `num_steps` entries, there is at least one row (a single zero row when no bar is visible
+    on the grid, see `approx_rows`), and every entry `(k, i)` — rows beyond those returned counting
+    as zero — is within `step/2` of the true landscape `λ_k(g_i)`; if moreover every endpoint is a
+    node, it is equal to it. -/
 theorem approx_half_step (dgms : List (Dgm K)) (homDeg : Nat) (d : Dgm K) (hdeg : dgms[homDeg]? = some d)
     (start stop : Option K) (s e : K)
     (hs : resolveStart start (finiteBars d) = some s) (he : resolveStop stop (finiteBars d) = some e)
     (n : Nat) (hn : 2 ≤ n) (hse : s ≤ e) (hcov : Covers s e (finiteBars d)) :
     ∃ v, persLandscapeApprox dgms homDeg start stop n = .ok v ∧
-      (∀ row ∈ v.rows, row.length = n) ∧
+      (∀ row ∈ v.rows, row.length = n) ∧ v.rows ≠ [] ∧
       (∀ k i, i < n →
         |v.entry k i - landscape (finiteBars d) k (node s e n i)| ≤ stepOf s e n / 2) ∧
       (OnGrid s e n (finiteBars d) → ∀ k i, i < n →
         v.entry k i = landscape (finiteBars d) k (node s e n i)) := by
-  refine ⟨computeLandscape (finiteBars d) s e n, ?_, approx_shape _ s e n,
+  refine ⟨computeLandscape (finiteBars d) s e n, ?_, approx_shape _ s e n, (approx_rows _ s e n).1,
     fun k i hi => computeLandscape_half_step _ s e n hn hse hcov k i hi,
     fun hg k i hi => computeLandscape_exact _ s e n hn hse hg k i hi⟩
   have hne : dgms.isEmpty = false := by
@@ -238,7 +276,7 @@ theorem approx_half_step_default (dgms : List (Dgm K)) (homDeg : Nat) (d : Dgm K
   have hse : s ≤ e := by rw [← hps]; exact le_trans (hbd p hp) (hmax p hp)
   have hcov : Covers s e (finiteBars d) := fun q hq =>
     ⟨hmin q hq, le_trans (hbd q hq) (hmax q hq), le_trans (hmin q hq) (hbd q hq), hmax q hq⟩
-  obtain ⟨v, hv, _, hb, _⟩ := approx_half_step dgms homDeg d hdeg none none s e hs he n hn hse hcov
+  obtain ⟨v, hv, _, _, hb, _⟩ := approx_half_step dgms homDeg d hdeg none none s e hs he n hn hse hcov
   exact ⟨s, e, v, hs, he, hv, hb⟩
 
 /-- what the constructor rejects (the model mirrors the code's error paths): no diagrams at all,
@@ -316,68 +354,88 @@ theorem half_step_attained :
     stepOf (0 : ℚ) 4 5 / 2 = 1 / 2 := by
   refine ⟨by decide +kernel, by decide +kernel, by decide +kernel⟩
 
-/-- concrete runs of the model (the docstring example of the class; a second depth; the placeholder) -/
+/-- concrete runs of the model (the docstring example of the class; a second depth; one zero row) -/
 example : (computeLandscape [((0 : ℚ), (2 : ℚ)), (2, 4)] 0 4 5).rows = [[0, 1, 0, 1, 0]] := by
   decide +kernel
 
-example : (computeLandscape [((1 : ℚ), (3 : ℚ))] 0 4 2).rows = [] := by decide +kernel
+example : (computeLandscape [((1 : ℚ), (3 : ℚ))] 0 4 2).rows = [[0, 0]] := by decide +kernel
 
 /-! ### the transformer -/
 
-/-- **transformer_is_approx**: `PersistenceLandscaper.transform` returns exactly the values of
-    `PersLandscapeApprox` with the transformer's parameters — the array itself, or (on request)
-    its row-major flattening, the `"empty"` placeholder staying as it is; errors are passed on. -/
-theorem transformer_is_approx (self : Landscaper K) (X : List (List (K × K))) :
+/-- **transformer_is_approx** (a definitional restatement of the model of `transform`, kept so that
+    the correspondence of that model with the real `PersistenceLandscaper.transform` has a named
+    statement; it carries no property clause of its own): `transform` returns exactly the values of
+    `PersLandscapeApprox` with the transformer's parameters — the array itself, or (on request) its
+    row-major flattening; errors are passed on. -/
+theorem transformer_is_approx (self : Landscaper K) (X : List (Dgm K)) :
     self.transform X =
-      match persLandscapeApprox (X.map embed) self.homDeg self.start self.stop self.numSteps with
+      match persLandscapeApprox X self.homDeg self.start self.stop self.numSteps with
       | .error err => .error err
       | .ok v =>
-        if self.flatten then
-          match v with
-          | .empty => .ok (.values .empty)
-          | .mat rows => .ok (.flat rows.flatten)
+        if self.flatten then .ok (.flat v.rows.flatten)
         else .ok (.values v) := by
   unfold Landscaper.transform
   rfl
 
 /-- … and the flattening is row-major: entry `k*num_steps + i` of the flat vector is entry `(k, i)`. -/
-theorem transformer_flat_entry (self : Landscaper K) (X : List (List (K × K))) (rows : List (List K))
-    (hv : persLandscapeApprox (X.map embed) self.homDeg self.start self.stop self.numSteps = .ok (.mat rows))
+theorem transformer_flat_entry (self : Landscaper K) (X : List (Dgm K)) (v : Values K)
+    (hv : persLandscapeApprox X self.homDeg self.start self.stop self.numSteps = .ok v)
     (hfl : self.flatten = true) :
-    self.transform X = .ok (.flat rows.flatten) ∧
-    ∀ k i, i < self.numSteps → rows.flatten[k * self.numSteps + i]? = (rows[k]?).bind (·[i]?) := by
+    self.transform X = .ok (.flat v.rows.flatten) ∧
+    ∀ k i, i < self.numSteps → v.rows.flatten[k * self.numSteps + i]? = (v.rows[k]?).bind (·[i]?) := by
   constructor
   · rw [transformer_is_approx, hv]; simp [hfl]
-  · have hrows : ∀ row ∈ rows, row.length = self.numSteps := by
+  · have hrows : ∀ row ∈ v.rows, row.length = self.numSteps := by
       obtain ⟨d, s, e, _, _, _, _, hveq⟩ := approx_ok_inv hv
       intro row hrow
       exact approx_shape (finiteBars d) s e self.numSteps row (by rw [← hveq]; exact hrow)
     intro k i hi
-    exact flatten_getElem? rows self.numSteps hrows k i hi
+    exact flatten_getElem? v.rows self.numSteps hrows k i hi
 
-/-- non-vacuity of `transformer_flat_entry` -/
-example : persLandscapeApprox ([[((1 / 2 : ℚ), (7 / 2 : ℚ))]].map embed) 0 none none 4
+/-- non-vacuity of `transformer_flat_entry` (a diagram with an infinite bar) -/
+example : persLandscapeApprox [[(some (1 / 2 : ℚ), some (7 / 2 : ℚ)), (some 0, none)]] 0 none none 4
     = .ok (.mat [[0, 1, 1, 0]]) := by decide +kernel
 
-/-- `fit_transform` on a fresh transformer is `transform` with the grid learnt from `X[hom_deg]`,
-    which is the grid the constructor itself would choose: the two calls agree whenever the
-    degree is present. -/
-theorem fit_transform_eq_transform (self : Landscaper K) (X : List (List (K × K))) (d : List (K × K))
+/-- **fit_transform_eq_transform**: `fit_transform` on a fresh transformer is `transform` with the
+    grid learnt from the points of `X[hom_deg]` that have finite coordinates — which is the grid the
+    constructor itself would choose (it removes the same rows): the two calls agree whenever the
+    degree is present, for diagrams WITH infinite bars as well (/repo fix b209c93). -/
+theorem fit_transform_eq_transform (self : Landscaper K) (X : List (Dgm K)) (d : Dgm K)
     (hdeg : X[self.homDeg]? = some d) : self.fitTransform X = self.transform X := by
-  have hdeg' : (X.map embed)[self.homDeg]? = some (embed d) := by simp [hdeg]
-  have hne : (X.map embed).isEmpty = false := by
+  have hne : X.isEmpty = false := by
     cases X with
     | nil => simp at hdeg
     | cons _ _ => rfl
   unfold Landscaper.fitTransform Landscaper.fit Landscaper.transform persLandscapeApprox
-  simp only [hdeg, hdeg', hne, finiteBars_embed]
-  cases h1 : resolveStart self.start d with
+  simp only [hdeg, hne]
+  cases h1 : resolveStart self.start (finiteBars d) with
   | none => simp
   | some s =>
-    cases h2 : resolveStop self.stop d with
+    cases h2 : resolveStop self.stop (finiteBars d) with
     | none => simp
     | some e =>
-      simp only [hdeg', finiteBars_embed, resolveStart, resolveStop]
+      simp only [hdeg, resolveStart, resolveStop]
+
+/-- non-vacuity: a diagram with an infinite bar, `[(0,2),(2,4),(0,∞)]`, has the degree present; the
+    model's `fit_transform` succeeds on it with the grid `[0, 4]` of the finite bars -/
+example : ([[(some (0 : ℚ), some (2 : ℚ)), (some 2, some 4), (some 0, none)]] : List (Dgm ℚ))[0]? =
+      some [(some 0, some 2), (some 2, some 4), (some 0, none)] ∧
+    ({ homDeg := 0, start := none, stop := none, numSteps := 5, flatten := false } : Landscaper ℚ).fitTransform
+        [[(some (0 : ℚ), some (2 : ℚ)), (some 2, some 4), (some 0, none)]] =
+      .ok (.values (.mat [[0, 1, 0, 1, 0]])) := by
+  refine ⟨rfl, ?_⟩
+  decide +kernel
+
+/-- **old_fit_inf_counterexample** (regression witness for the model of the code before /repo fix
+    b209c93): there `fit` learnt `stop = +∞` from the infinite bar of `[(0,3),(1,4),(0,∞)]` and
+    `fit_transform` raised (`KeyError(nan)`), while `transform` with the constructor's own default
+    grid succeeds on the same input — the two calls disagreed. -/
+theorem old_fit_inf_counterexample :
+    let self : Landscaper ℚ := { homDeg := 0, start := none, stop := none, numSteps := 5, flatten := false }
+    let X : List (Dgm ℚ) := [[(some 0, some 3), (some 1, some 4), (some 0, none)]]
+    self.fitTransformOld X = .error .keyError ∧
+    (∃ v, self.transform X = .ok (.values v)) ∧ (∃ v, self.fitTransform X = .ok (.values v)) := by
+  refine ⟨rfl, ⟨_, rfl⟩, ⟨_, rfl⟩⟩
 
 /-! ### vectorize -/
 
@@ -385,7 +443,9 @@ theorem fit_transform_eq_transform (self : Landscaper K) (X : List (List (K × K
     linear interpolation, `npInterp`, whenever the abscissae increase).  For an exact landscape whose
     depths have increasing abscissae and zero first and last values, `vectorize` returns for every
     depth `k` and node `i` the value of the piecewise-linear depth function at that node:
-    `evalPL cps[k] g_i`. -/
+    `evalPL cps[k] g_i`.  This is a statement about the landscape's OWN critical pairs; that these are
+    the true landscape `λ_k` is C03's statement (`C03.certify_sound` per diagram), and fails where the
+    repeated-bar shortcut of `compute_landscape` fires (known finding, replayed by the C08 check). -/
 theorem vectorize_samples_evalPL (interp : List (K × K) → K → K)
     (hinterp : ∀ l t, Increasing l → interp l t = npInterp l t)
     (cps : List (List (K × K))) (hwf : ∀ l ∈ cps, Increasing l ∧ FirstZero l ∧ LastZero l)
